@@ -793,7 +793,8 @@ const DOMAIN_NAMES: [&str; 3] = ["client_hmac(nonce 0x01)", "server_hmac(nonce 0
 struct SharedCtx {
     secret: [u8; 32],
     nonce: [u8; 32],
-    helper: ExternalPersistHelper,
+    /// behind a RefCell so that the driver compiles whether the helper's methods take `&self` or `&mut self`
+    helper: std::cell::RefCell<ExternalPersistHelper>,
     lists: Vec<(Vec<Rec>, &'static str)>,
     core: HashMap<[u8; 32], (usize, usize)>, // tag -> (domain, list index)
     lss: HashMap<Vec<u8>, usize>,
@@ -807,14 +808,14 @@ impl SharedCtx {
         if got != nonce {
             r.inconclusive("new_nonce did not return the entropy source's bytes");
         }
-        SharedCtx { secret, nonce, helper, lists: vec![], core: HashMap::new(), lss: HashMap::new(), place }
+        SharedCtx { secret, nonce, helper: std::cell::RefCell::new(helper), lists: vec![], core: HashMap::new(), lss: HashMap::new(), place }
     }
 
     fn tag_in_domain(&self, l: &[Rec], d: usize) -> [u8; 32] {
         let m = to_mutations(l);
         match d {
-            0 => self.helper.client_hmac(&m),
-            1 => self.helper.server_hmac(&m),
+            0 => self.helper.borrow_mut().client_hmac(&m),
+            1 => self.helper.borrow_mut().server_hmac(&m),
             _ => compute_shared_hmac(&self.secret, &self.nonce, &m),
         }
     }
@@ -824,7 +825,9 @@ impl SharedCtx {
         let muts = to_mutations(&list);
         let idx = self.lists.len();
         let tags = match report::catch(|| {
-            [self.helper.client_hmac(&muts), self.helper.server_hmac(&muts), compute_shared_hmac(&self.secret, &self.nonce, &muts)]
+            let c = self.helper.borrow_mut().client_hmac(&muts);
+            let sv = self.helper.borrow_mut().server_hmac(&muts);
+            [c, sv, compute_shared_hmac(&self.secret, &self.nonce, &muts)]
         }) {
             Ok(t) => t,
             Err(p) => {
@@ -836,7 +839,7 @@ impl SharedCtx {
         r.count("shared.lists");
         r.count(&format!("shared.lists.{}", origin));
         // the honest response must authenticate (otherwise the monitor would be vacuous)
-        if self.helper.check_hmac(&muts, tags[2].to_vec()) {
+        if self.helper.borrow_mut().check_hmac(&muts, tags[2].to_vec()) {
             r.count("shared.honest_get_tag.accepted");
         } else {
             r.count("shared.honest_get_tag.REFUSED");
@@ -915,7 +918,7 @@ impl SharedCtx {
         let confirm = if prefix == "shared-hmac" && domains.contains(&2) {
             // observe point: the signer-side check accepts list b with the tag the server made for list a
             let ta = compute_shared_hmac(&self.secret, &self.nonce, &to_mutations(a));
-            Some(self.helper.check_hmac(&to_mutations(b), ta.to_vec()))
+            Some(self.helper.borrow_mut().check_hmac(&to_mutations(b), ta.to_vec()))
         } else {
             None
         };
@@ -1150,7 +1153,7 @@ struct Production {
 }
 
 struct Session<'a> {
-    helper: &'a ExternalPersistHelper,
+    helper: &'a std::cell::RefCell<ExternalPersistHelper>,
     secret: [u8; 32],
     current: [u8; 32],
     produced: &'a [Production],
@@ -1163,7 +1166,7 @@ fn show(r: &mut Report, s: &Session, kind: &str, sig: &str, list: &[Rec], tag: &
     r.eval(1);
     r.count(&format!("check.{}.presented", kind));
     let muts = to_mutations(list);
-    let res = report::catch(|| s.helper.check_hmac(&muts, tag.to_vec()));
+    let res = report::catch(|| s.helper.borrow_mut().check_hmac(&muts, tag.to_vec()));
     let outcome;
     let ret = match res {
         Err(p) => {
@@ -1218,12 +1221,12 @@ fn show(r: &mut Report, s: &Session, kind: &str, sig: &str, list: &[Rec], tag: &
 fn nonce_session(r: &mut Report, rng: &mut Rng, place: Value, steps: u64) {
     let secret = rng.bytes::<32>();
     let other_secret = rng.bytes::<32>();
-    let mut helper = ExternalPersistHelper::new(secret);
+    let helper = std::cell::RefCell::new(ExternalPersistHelper::new(secret));
     let mut produced: Vec<Production> = vec![];
     let mut history: Vec<([u8; 32], Vec<Rec>, [u8; 32])> = vec![]; // (nonce, list, honest tag)
     for step in 0..steps {
         let nonce = rng.bytes::<32>();
-        let got = helper.new_nonce(&FixedEntropy(Mutex::new(vec![nonce])));
+        let got = helper.borrow_mut().new_nonce(&FixedEntropy(Mutex::new(vec![nonce])));
         if got != nonce {
             r.inconclusive("new_nonce did not return the entropy source's bytes");
             return;
@@ -1246,8 +1249,8 @@ fn nonce_session(r: &mut Report, rng: &mut Rng, place: Value, steps: u64) {
         let tag = compute_shared_hmac(&secret, &nonce, &muts); // the honest server
         produced.push(Production { nonce: nonce.to_vec(), list: list.clone(), tag, what: "get response" });
         // tags the client/server legitimately make for puts of the same data
-        let ctag = helper.client_hmac(&muts);
-        let stag = helper.server_hmac(&muts);
+        let ctag = helper.borrow_mut().client_hmac(&muts);
+        let stag = helper.borrow_mut().server_hmac(&muts);
         produced.push(Production { nonce: vec![0x01], list: list.clone(), tag: ctag, what: "client_hmac of a put" });
         produced.push(Production { nonce: vec![0x02], list: list.clone(), tag: stag, what: "server_hmac of a put" });
 
